@@ -110,6 +110,17 @@ pub struct Workload {
     /// reference compile
     #[serde(default)]
     pub stall_pm: u16,
+    /// fresh-process pair (DESIGN §16): two newly exec'ed processes with no warm-up compile
+    /// `target`; the first does nothing else, the second first goes through `history` on the
+    /// same thread.  Everything the pair depends on is in the workload, so it replays.
+    #[serde(default)]
+    pub fresh: Option<FreshSpec>,
+}
+
+#[derive(Serialize, Deserialize, Clone, Debug)]
+pub struct FreshSpec {
+    pub history: Vec<Re>,
+    pub target: usize,
 }
 
 pub const FAILERS: [&str; 11] = [
@@ -1242,7 +1253,8 @@ pub fn generate(rng: &mut Rng, thorough: bool) -> Workload {
         }
     }
     let n_threads = threads.len();
-    Workload {
+    let n_progs = progs.len();
+    let mut w = Workload {
         progs,
         threads,
         // with several threads, mostly allow preemption inside compiles (overlapping
@@ -1259,7 +1271,29 @@ pub fn generate(rng: &mut Rng, thorough: bool) -> Workload {
         } else {
             0
         },
+        fresh: None,
+    };
+    // drawn last, so that the rest of a run's workload is what it was before this existed
+    if rng.chance(1, 3) {
+        let target = rng.below(n_progs as u64) as usize;
+        let mut history = Vec::new();
+        for _ in 0..rng.range(1, 3) {
+            history.push(if rng.chance(1, 4) {
+                Re::Fail(rng.below(FAILERS.len() as u64) as usize)
+            } else {
+                // prefer another program than the target: what the first compile of a
+                // process leaves behind shows when the two differ in dialect or options
+                let q = rng.below(n_progs as u64) as usize;
+                if q == target && n_progs > 1 {
+                    Re::Prog((q + 1) % n_progs)
+                } else {
+                    Re::Prog(q)
+                }
+            });
+        }
+        w.fresh = Some(FreshSpec { history, target });
     }
+    w
 }
 
 // ---------------------------------------------------------------------------------------
@@ -1670,6 +1704,73 @@ pub fn run_one(w: &Workload, tape: &mut Tape, entropy_seed: u64) -> Result<RunRe
         .map_err(|e| format!("{:?}", e))?;
     ARGNAME_CTR.store(0, Ordering::SeqCst);
 
+    // phase F: the fresh-process pair
+    let mut fresh_probes = Probes::default();
+    let mut fresh_mismatch: Option<(Violation, serde_json::Value)> = None;
+    if let (Some(f), None) = (&w.fresh, &out.violation) {
+        let cost = |r: &Re| match r {
+            Re::Prog(q) => rp.results.get(*q).and_then(|r| r.as_ref()).map(|r| r.allocs).unwrap_or(0),
+            Re::Fail(_) => 0,
+        };
+        let work_f: u64 = f.history.iter().map(cost).sum::<u64>() + cost(&Re::Prog(f.target));
+        if f.target >= w.progs.len() || work_f > 12_000_000 {
+            fresh_probes.hit("fresh_pair_skipped_too_heavy");
+        } else {
+            let op = |kind: OpK| OpSpec { kind, ambient: None, reenter: None };
+            let tail = vec![op(OpK::SetCounter(0)), op(OpK::Compile(f.target))];
+            let mut aged: Vec<OpSpec> = f
+                .history
+                .iter()
+                .filter_map(|r| match r {
+                    Re::Prog(q) if *q < w.progs.len() => Some(op(OpK::Compile(*q))),
+                    Re::Prog(_) => None,
+                    Re::Fail(x) => Some(op(OpK::Fail(*x))),
+                })
+                .collect();
+            aged.extend(tail.iter().cloned());
+            let a = fresh_child(&w.progs, &tail);
+            let b = fresh_child(&w.progs, &aged);
+            match (a, b) {
+                (Some(a), Some(b)) => {
+                    fresh_probes.hit("fresh_process_pair_compared");
+                    let (ra, rb) = (parse_info(&a), parse_info(&b));
+                    if ra.class == "ok" && ra.fresh_names {
+                        fresh_probes.hit("fresh_process_pair_compared_nontrivial");
+                    }
+                    let what = if ra.class != rb.class {
+                        Some("C05-class")
+                    } else if ra.bytes_digest != rb.bytes_digest {
+                        Some("C05-bytes")
+                    } else if ra.syms_digest != rb.syms_digest {
+                        Some("C05-symbols")
+                    } else {
+                        None
+                    };
+                    if let Some(what) = what {
+                        let v = Violation {
+                            invariant: what.to_string(),
+                            message: format!(
+                                "fresh-process pair: program {} compiled as the first compile of a new process and after {:?} in another new process differ ({} / {} bytes)",
+                                f.target, f.history, ra.len, rb.len
+                            ),
+                            step: 0,
+                        };
+                        let d = serde_json::json!({
+                            "program": w.progs[f.target].text,
+                            "program_name": w.progs[f.target].name,
+                            "what": format!("{} between two fresh processes", what),
+                            "perturbation": {"fresh_process_history": f.history},
+                            "reference": {"class": ra.class, "len": ra.len, "bytes_sha256_prefix": ra.bytes_digest, "hex": ra.hex, "symbols": ra.syms},
+                            "observed": {"class": rb.class, "len": rb.len, "bytes_sha256_prefix": rb.bytes_digest, "hex": rb.hex, "symbols": rb.syms},
+                        });
+                        fresh_mismatch = Some((v, d));
+                    }
+                }
+                _ => fresh_probes.hit("fresh_pair_child_gave_no_result"),
+            }
+        }
+    }
+
     let mut events = out_r.events;
     let base = events.len() as u32;
     for mut e in out.events {
@@ -1679,6 +1780,7 @@ pub fn run_one(w: &Workload, tape: &mut Tape, entropy_seed: u64) -> Result<RunRe
     }
     let log_hash = sched::hash_events(&events);
     let mut probes = pol.probes.clone();
+    probes.merge(&fresh_probes);
     probes.hit_n("compiles_compared", pol.compares);
     probes.hit_n("nontrivial_compiles_compared", pol.nontrivial_compares);
     let ref_ok = rp.results.iter().flatten().filter(|r| r.class == "ok").count();
@@ -1687,7 +1789,12 @@ pub fn run_one(w: &Workload, tape: &mut Tape, entropy_seed: u64) -> Result<RunRe
     let mut h = FNV_INIT;
     fnv1a(&mut h, serde_json::to_string(w).unwrap().as_bytes());
     fnv1a(&mut h, &log_hash.to_le_bytes());
+    let (fresh_violation, fresh_detail) = match fresh_mismatch {
+        Some((v, d)) => (Some(v), Some(d)),
+        None => (None, None),
+    };
     let detail = match &pol.mismatch {
+        _ if fresh_detail.is_some() => fresh_detail.unwrap(),
         Some(m) => serde_json::json!({
             "program": w.progs[m.prog].text,
             "program_name": w.progs[m.prog].name,
@@ -1703,7 +1810,7 @@ pub fn run_one(w: &Workload, tape: &mut Tape, entropy_seed: u64) -> Result<RunRe
         }),
     };
     Ok(RunReport {
-        violation: out.violation,
+        violation: out.violation.or(fresh_violation),
         steps: events.len() as u32,
         events,
         tape: tape.rec.clone(),
@@ -1717,6 +1824,121 @@ pub fn run_one(w: &Workload, tape: &mut Tape, entropy_seed: u64) -> Result<RunRe
         detail,
         extra_keys: pol.pair_keys.clone(),
     })
+}
+
+// ---------------------------------------------------------------------------------------
+// fresh-process pair: `dsim c05-fresh` is exec'ed in the worker's sandbox directory
+// ---------------------------------------------------------------------------------------
+
+/// Runs `ops` on one thread of a newly exec'ed dsim (no warm-up of the compiler: the first
+/// operation is the first compile that process has ever done) and returns the result record
+/// of the last compile.  None: the child crashed, overflowed its stack or took too long.
+fn fresh_child(progs: &[Prog], ops: &[OpSpec]) -> Option<String> {
+    let exe = std::env::current_exe().ok()?;
+    let input = serde_json::json!({"progs": progs, "ops": ops}).to_string();
+    std::fs::write("fresh-in.json", input).ok()?;
+    let _ = std::fs::remove_file("fresh-out.txt");
+    let mut child = std::process::Command::new(exe)
+        .arg("c05-fresh")
+        .stdin(std::process::Stdio::null())
+        .stdout(std::process::Stdio::null())
+        .stderr(std::process::Stdio::null())
+        .spawn()
+        .ok()?;
+    let t0 = std::time::Instant::now();
+    let status = loop {
+        match child.try_wait() {
+            Ok(Some(st)) => break Some(st),
+            Ok(None) => {
+                if t0.elapsed() > Duration::from_secs(120) {
+                    let _ = child.kill();
+                    let _ = child.wait();
+                    break None;
+                }
+                std::thread::sleep(Duration::from_millis(2));
+            }
+            Err(_) => break None,
+        }
+    };
+    let out = std::fs::read_to_string("fresh-out.txt").ok();
+    let _ = std::fs::remove_file("fresh-in.json");
+    let _ = std::fs::remove_file("fresh-out.txt");
+    let _ = std::fs::remove_file("main.sym");
+    if !status.map(|s| s.success()).unwrap_or(false) {
+        return None;
+    }
+    out?.lines().find_map(|l| l.strip_prefix("RES ").map(|s| s.to_string()))
+}
+
+struct FreshPolicy {
+    last: Option<String>,
+}
+
+impl Policy for FreshPolicy {
+    fn check(&mut self, _c: &StepCtx) -> Result<(), Violation> {
+        Ok(())
+    }
+    fn decide(&mut self, _a: usize, op: &Op, _t: &mut Tape, _w: &Arc<World>) -> Decision {
+        if op.kind == OpKind::Boundary && op.path == "res" && !parse_info(&op.path2).nested {
+            self.last = Some(op.path2.clone());
+        }
+        Decision::proceed()
+    }
+    fn finish(&mut self, _w: &Arc<World>, _e: &[Event]) -> Result<(), Violation> {
+        Ok(())
+    }
+}
+
+pub fn fresh_main() -> i32 {
+    let cwd = match std::env::current_dir() {
+        Ok(c) => c.to_string_lossy().into_owned(),
+        Err(_) => return 2,
+    };
+    seam::set_root(&cwd);
+    // the interpreter only: nothing of the compiler runs before the first operation
+    crate::pybind::init();
+    let v: serde_json::Value = match std::fs::read_to_string("fresh-in.json")
+        .ok()
+        .and_then(|s| serde_json::from_str(&s).ok())
+    {
+        Some(v) => v,
+        None => return 2,
+    };
+    let progs: Vec<Prog> = match serde_json::from_value(v["progs"].clone()) {
+        Ok(p) => p,
+        Err(_) => return 2,
+    };
+    let ops: Vec<OpSpec> = match serde_json::from_value(v["ops"].clone()) {
+        Ok(p) => p,
+        Err(_) => return 2,
+    };
+    let world = seam::new_world(1, false, 1_000_000_000_000);
+    let specs = vec![ActorSpec {
+        name: "fresh".to_string(),
+        entropy_seed: REF_ENTROPY,
+        skew_ns: 0,
+        stack_bytes: 64 << 20,
+        body: thread_body(
+            Arc::new(progs),
+            ThreadSpec {
+                ops,
+                reuse_allocator: false,
+            },
+            false,
+        ),
+    }];
+    let mut pol = FreshPolicy { last: None };
+    let mut tape = Tape::generate(1);
+    if sched::run(world, specs, &mut tape, &mut pol, 100_000, Duration::from_secs(110)).is_err() {
+        return 2;
+    }
+    match pol.last {
+        Some(l) => {
+            let _ = std::fs::write("fresh-out.txt", format!("RES {}\n", l));
+            0
+        }
+        None => 3,
+    }
 }
 
 // ---------------------------------------------------------------------------------------
@@ -1750,6 +1972,23 @@ fn renumber_prog(w: &Workload, drop: usize) -> Workload {
         }
     }
     c.threads.retain(|t| !t.ops.is_empty());
+    if let Some(f) = c.fresh.as_mut() {
+        if f.target == drop {
+            c.fresh = None;
+        } else {
+            if f.target > drop {
+                f.target -= 1;
+            }
+            f.history.retain(|r| !matches!(r, Re::Prog(q) if *q == drop));
+            for r in f.history.iter_mut() {
+                if let Re::Prog(q) = r {
+                    if *q > drop {
+                        *q -= 1;
+                    }
+                }
+            }
+        }
+    }
     c
 }
 
@@ -1804,6 +2043,18 @@ impl Prop for C05 {
             let mut c = w.clone();
             c.stall_pm = 0;
             out.push(c);
+        }
+        if let Some(f) = &w.fresh {
+            let mut c = w.clone();
+            c.fresh = None;
+            out.push(c);
+            if f.history.len() > 1 {
+                for i in 0..f.history.len() {
+                    let mut c = w.clone();
+                    c.fresh.as_mut().unwrap().history.remove(i);
+                    out.push(c);
+                }
+            }
         }
         // drop whole threads, programs, operations
         if w.threads.len() > 1 {
